@@ -4,7 +4,7 @@
    src/main.rs and the file system: the loop over the source arguments is model/Driver.v (theorems at the end of this file), the writing of one
    source's outputs is modelled under C15; both are compared with the real command. *)
 From Coq Require Import Permutation.
-From QV Require Import model.Base gen.GenUigen model.Uigen proofs.UigenProofs model.Driver proofs.DriverProofs.
+From QV Require Import model.Base gen.GenUigen model.Uigen proofs.UigenProofs model.Driver proofs.DriverProofs model.FsModel proofs.FsProofs model.DriverFs proofs.DriverFsProofs.
 Open Scope string_scope.
 
 (* the outputs consist exactly of what the per-binding fate functions say: nothing else is written, nothing is lost *)
@@ -75,3 +75,11 @@ Print Assumptions C04_nothing_is_written_from_the_faulty_source_on.
 Theorem C04_accepted_sources_are_all_written : forall (out : Type) (os : list out), run_sources out (List.map Translated os) = (os, true).
 Proof. exact all_translated_all_written. Qed.
 Print Assumptions C04_accepted_sources_are_all_written.
+
+(* ... on the file system (the loop feeding the writer of model/FsModel.v): when a source has errors then, at EVERY moment of the run, every path that is not an output
+   of a source in front of it -- the .ui and the header of the faulty source among them -- holds what it held before the command started *)
+Theorem C04_errors_write_nothing_on_disk : forall s t a b n q, fresh s t ->
+  ~ In q (map fst (outs_of (outputs_before_first_error _ a))) ->
+  lookup (files (exec_all s (firstn n (command_ops s t (a ++ HasErrors :: b))))) q = lookup (files s) q.
+Proof. exact faulty_source_writes_nothing. Qed.
+Print Assumptions C04_errors_write_nothing_on_disk.
